@@ -100,3 +100,12 @@ func zzC14VerifyServerCertificateAsConfigured() {
 		verifAssert(err == nil && len(c.peerCertificates) == 1, "success-stores-peer-certificates")
 	}
 }
+
+//verif:harness C14 resumed_session_rechecks_verification_name unwind=400 paths=200000 wall=900
+//verif:stub (*crypto/x509.Certificate).VerifyHostname zzStubVerifyHostname
+//verif:stub (time.Time).Sub zzStubTimeSub
+//verif:stub (*github.com/refraction-networking/utls/internal/tls13.EarlySecret).ResumptionBinderKey zzStubResumptionBinderKey
+//verif:expect offered12 offered13 declined
+//verif:assume the session cache returns an ARBITRARY session; x509 host-name matching is a stub with an arbitrary outcome
+//verif:doc The resumed-session half of C14 (same scenario as C19 load_session_offers_only_resumable): loadSession offers a cached session only if its leaf certificate is unexpired (unless InsecureSkipTimeVerify), was verified, and matches the name Config dictates - ServerName, InsecureServerNameToVerify when set, no name check when that is "*".
+func zzC14ResumedSessionRechecksVerificationName() { zzLoadSessionBody() }
